@@ -5,6 +5,7 @@ import (
 	"flag"
 	"fmt"
 	"os"
+	"os/exec"
 	"path/filepath"
 	"runtime/debug"
 	"sort"
@@ -43,6 +44,8 @@ func main() {
 	verif := flag.String("verif", "/verif", "verif directory (evidence, replay, known findings)")
 	replay := flag.String("replay", "", "replay file: re-run the rule of one recorded obligation")
 	list := flag.Bool("list", false, "list properties and rules")
+	all := flag.Bool("all", false, "run every property once on one load and list the non-holding obligations (no evidence written)")
+	benign := flag.Bool("benign", false, "apply every behaviour-preserving edit under /verif/benign and require all checks to stay silent")
 	manifest := flag.Bool("manifest", false, "write MANIFEST.json from the property registry")
 	selftest := flag.Bool("selftest", false, "run fixtures for every rule")
 	flag.BoolVar(&dumpAll, "dump", false, "print every obligation")
@@ -59,6 +62,12 @@ func main() {
 			fmt.Printf("%s: %d rules\n", id, len(props[id].Rules))
 		}
 		return
+	}
+	if *all {
+		os.Exit(runAll(*repo))
+	}
+	if *benign {
+		os.Exit(runBenign(*repo, *verif))
 	}
 	if *manifest {
 		os.Exit(writeManifest(*repo, *verif))
@@ -292,5 +301,111 @@ func writeManifest(repo, verif string) int {
 		return 1
 	}
 	fmt.Printf("MANIFEST.json: %d checks, %d not claimed\n", len(checks), len(na))
+	return 0
+}
+
+// runAll decides every property on one load; used by the false-alarm tests.
+func runAll(repo string) int {
+	p, err := Load(repo, "", "")
+	if err != nil {
+		fmt.Println("LOAD-ERROR", err)
+		return 3
+	}
+	var ids []string
+	for id := range props {
+		ids = append(ids, id)
+	}
+	sort.Strings(ids)
+	bad := 0
+	for _, id := range ids {
+		r := NewReport(id, "quick")
+		func() {
+			defer func() {
+				if e := recover(); e != nil {
+					r.Undecided("checker", "", "panic", fmt.Sprint(e))
+				}
+			}()
+			runRules(&Ctx{P: p, R: r}, props[id])
+		}()
+		for _, o := range r.Obs {
+			if o.Verdict == "violated" || o.Verdict == "undecided" {
+				bad++
+				fmt.Printf("ALARM %s %s %s %s | %s | %s\n", id, o.Verdict, o.Rule, o.Func, o.Construct, firstLine(o.Detail))
+			}
+		}
+	}
+	if bad > 0 {
+		return 1
+	}
+	return 0
+}
+
+func runBenign(repo, verif string) int {
+	files, _ := filepath.Glob(filepath.Join(verif, "benign", "*.diff"))
+	sort.Strings(files)
+	self, _ := os.Executable()
+	type res struct {
+		name, out string
+		code      int
+	}
+	results := make([]res, len(files))
+	sem := make(chan struct{}, 8)
+	done := make(chan int)
+	for i, f := range files {
+		go func(i int, f string) {
+			sem <- struct{}{}
+			defer func() { <-sem; done <- i }()
+			name := strings.TrimSuffix(filepath.Base(f), ".diff")
+			tmp, err := os.MkdirTemp("", "gpben-")
+			if err != nil {
+				results[i] = res{name, err.Error(), 3}
+				return
+			}
+			defer os.RemoveAll(tmp)
+			work := filepath.Join(tmp, "repo")
+			if err := copyTree(repo, work); err != nil {
+				results[i] = res{name, err.Error(), 3}
+				return
+			}
+			ap := exec.Command("git", "apply", "--whitespace=nowarn", f)
+			ap.Dir = work
+			if out, err := ap.CombinedOutput(); err != nil {
+				results[i] = res{name, "patch does not apply: " + firstLine(string(out)), 2}
+				return
+			}
+			cmd := exec.Command(self, "-all", "-repo", work)
+			cmd.Env = append(os.Environ(), "GOFLAGS=-mod=mod", "GOPROXY=off")
+			out, err := cmd.CombinedOutput()
+			code := 0
+			if err != nil {
+				code = 1
+				if ee, ok := err.(*exec.ExitError); ok {
+					code = ee.ExitCode()
+				}
+			}
+			results[i] = res{name, string(out), code}
+		}(i, f)
+	}
+	for range files {
+		<-done
+	}
+	fails := 0
+	for _, r := range results {
+		switch r.code {
+		case 0:
+			fmt.Printf("benign %-36s silent\n", r.name)
+		case 2:
+			fmt.Printf("benign %-36s skipped (%s)\n", r.name, r.out)
+		case 3:
+			fmt.Printf("benign %-36s skipped (does not compile / load error)\n", r.name)
+		default:
+			fails++
+			fmt.Printf("benign %-36s FALSE ALARM\n%s", r.name, r.out)
+		}
+	}
+	fmt.Printf("benign: %d edits, %d false alarms\n", len(files), fails)
+	if fails > 0 {
+		return 1
+	}
 	return 0
 }
